@@ -122,16 +122,24 @@ Definition keep_override (p : string) (c : jv) (m : alist) : alist :=
 
 Definition is_import (c : jv) : bool := match get_path ["$import"] c with Some _ => true | None => false end.
 
-Definition store_comp_raw (d : doc) (p : string) (c : jv) : option jv :=
+(* instance() (repaired, finding F7d) derives workflowAttributes.isRepeat again from the LAYERED repeatInterval of the
+   folded component - the same function of the component that FlowIRConcrete.__init__ applies to every component of a
+   document it is built from ([comp_pre]) - before it stores it.  [store_comp_raw_pinned] is what the pinned code did:
+   the stored isRepeat was the one derived from the component's OWN repeatInterval when the package was loaded. *)
+Definition store_comp_with (rederive : jv -> jv) (d : doc) (p : string) (c : jv) : option jv :=
   if is_import c then Some c
   else match comp_stage_key c with
        | None => None
        | Some sk =>
            match fold_override (Some (JDict [])) (store_layers d p sk c) with
-           | Some (JDict m) => Some (JDict (keep_override p c (set_key "variables" (JDict (comp_own_vars p c)) m)))
+           | Some (JDict m) =>
+               Some (JDict (keep_override p c (set_key "variables" (JDict (comp_own_vars p c)) (jdict_of (rederive (JDict m))))))
            | _ => None
            end
        end.
+
+Definition store_comp_raw : doc -> string -> jv -> option jv := store_comp_with comp_pre.
+Definition store_comp_raw_pinned : doc -> string -> jv -> option jv := store_comp_with (fun f => f).
 
 Fixpoint all_some {A} (l : list (option A)) : option (list A) :=
   match l with
